@@ -170,6 +170,10 @@ func strGsub(L *LState) int {
 	L.CheckTypes(3, LTNumber, LTString, LTTable, LTFunction)
 	repl := L.CheckAny(3)
 	limit := L.OptInt(4, -1)
+	if limit < 0 && L.Get(4) != LNil {
+		// str_gsub replaces while n < max_s, so a negative max_s replaces nothing
+		limit = 0
+	}
 
 	mds, err := pm.Find(pat, unsafeFastStringToReadOnlyBytes(str), 0, limit)
 	if err != nil {
